@@ -5,6 +5,7 @@ import (
 	"go/token"
 	"go/types"
 	"os"
+	"regexp"
 	"sort"
 	"strings"
 
@@ -24,6 +25,16 @@ func init() {
 				x := strings.Split(one, "|")
 				c.rejectReasonsRule(p, "DEBUG.reasons", reasonSpec{pkg: x[0], typ: x[1], name: x[2], why: "debug"})
 			}
+		}
+		if v := os.Getenv("DBGSIB"); v != "" {
+			x := strings.Split(v, "|")
+			surveySiblingConds(p, x[0], x[1], x[2])
+		}
+		if os.Getenv("DBGRETALIAS") != "" {
+			surveyReturnAlias(p)
+		}
+		if os.Getenv("DBGNARROW") != "" {
+			surveyNarrowCompare(p)
 		}
 		if os.Getenv("DBGDEAD") != "" {
 			surveyDeadValues(p)
@@ -950,4 +961,139 @@ func surveyDeadValues(p *Program) {
 		}
 	}
 	fmt.Println("dead values:", n)
+}
+
+func surveyNarrowCompare(p *Program) {
+	re := regexp.MustCompile(`(?i)(compare|equal|iszero|isone|verify|cmp)`)
+	for f := range p.AllFuncs {
+		if f.Blocks == nil || !isCirclFunc(f) || !sourceFunc(f) || !re.MatchString(f.Name()) {
+			continue
+		}
+		for _, b := range f.Blocks {
+			for _, in := range b.Instrs {
+				cv, ok := in.(*ssa.Convert)
+				if !ok {
+					continue
+				}
+				sb, ok1 := cv.X.Type().Underlying().(*types.Basic)
+				db, ok2 := cv.Type().Underlying().(*types.Basic)
+				if !ok1 || !ok2 || sb.Info()&types.IsInteger == 0 || db.Info()&types.IsInteger == 0 {
+					continue
+				}
+				ss, ds := p.sizeOf(sb), p.sizeOf(db)
+				if ds < ss {
+					fmt.Printf("NARROW %s %s: %s(%d) -> %s(%d) %s\n", fname(f), p.pos(cv.Pos()), sb, ss, db, ds, descVal(cv.X))
+				}
+			}
+		}
+	}
+}
+
+func (p *Program) sizeOf(b *types.Basic) int64 {
+	switch b.Kind() {
+	case types.Int8, types.Uint8:
+		return 1
+	case types.Int16, types.Uint16:
+		return 2
+	case types.Int32, types.Uint32:
+		return 4
+	default:
+		return 8
+	}
+}
+
+func surveyReturnAlias(p *Program) {
+	var fs []*ssa.Function
+	for f := range p.AllFuncs {
+		if f.Blocks != nil && isCirclFunc(f) && sourceFunc(f) && f.Parent() == nil && f.Signature.Recv() != nil && f.Object() != nil && f.Object().Exported() && !strings.Contains(funcPkgPath(f), "/internal/") {
+			fs = append(fs, f)
+		}
+	}
+	sort.Slice(fs, func(i, j int) bool { return fs[i].String() < fs[j].String() })
+	n := 0
+	for _, f := range fs {
+		recv := ssa.Value(f.Params[0])
+		for _, b := range f.Blocks {
+			ret, ok := b.Instrs[len(b.Instrs)-1].(*ssa.Return)
+			if !ok {
+				continue
+			}
+			for _, rv := range ret.Results {
+				if _, isSlice := rv.Type().Underlying().(*types.Slice); !isSlice {
+					continue
+				}
+				v := rv
+				for i := 0; i < 8; i++ {
+					switch x := v.(type) {
+					case *ssa.Slice:
+						v = x.X
+						continue
+					case *ssa.ChangeType:
+						v = x.X
+						continue
+					case *ssa.Convert:
+						v = x.X
+						continue
+					}
+					break
+				}
+				root := ""
+				if v == recv {
+					root = "receiver itself"
+				} else if u, ok := v.(*ssa.UnOp); ok && u.Op == token.MUL {
+					if n := recvField(recv, u.X); n != "" {
+						root = "field " + n
+					}
+				} else if n := recvField(recv, v); n != "" {
+					root = "storage of field " + n
+				}
+				if root != "" {
+					n++
+					fmt.Printf("RETALIAS %s returns %s (%s)\n", fname(f), root, p.pos(ret.Pos()))
+				}
+			}
+		}
+	}
+	fmt.Println("return aliases:", n)
+}
+
+func surveySiblingConds(p *Program, pkg, ta, tb string) {
+	norm := func(s string) string {
+		r := strings.NewReplacer(tb, ta, strings.ToLower(tb), strings.ToLower(ta), "Fp2", "Fp", "fp2", "fp", "g2", "g1", "G2", "G1")
+		return r.Replace(s)
+	}
+	conds := func(f *ssa.Function) []string {
+		var out []string
+		for _, b := range f.Blocks {
+			if ifi, ok := b.Instrs[len(b.Instrs)-1].(*ssa.If); ok {
+				out = append(out, norm(descVal(ifi.Cond)))
+			}
+		}
+		sort.Strings(out)
+		return out
+	}
+	pk := p.ByPath[circlPath+"/"+pkg]
+	if pk == nil {
+		return
+	}
+	names := map[string]bool{}
+	for f := range p.AllFuncs {
+		if f.Blocks != nil && funcPkgPath(f) == circlPath+"/"+pkg && f.Signature.Recv() != nil && sourceFunc(f) {
+			names[f.Name()] = true
+		}
+	}
+	n, nd := 0, 0
+	for name := range names {
+		fa, fb := p.Func(pkg, ta, name), p.Func(pkg, tb, name)
+		if fa == nil || fb == nil {
+			continue
+		}
+		n++
+		ca, cb := conds(fa), conds(fb)
+		if strings.Join(ca, " ;; ") != strings.Join(cb, " ;; ") {
+			nd++
+			fmt.Printf("SIBDIFF %s:\n   %s: %v\n   %s: %v\n", name, ta, ca, tb, cb)
+		}
+	}
+	fmt.Println("sibling methods:", n, "differing:", nd)
 }
